@@ -942,8 +942,14 @@ class BaseRepo:
         haves = self.object_store.find_common_revisions(graph_walker)
 
         # Deal with shallow requests separately because the haves do
-        # not reflect what objects are missing
-        if getattr(graph_walker, "shallow", set()) or unshallow:
+        # not reflect what objects are missing. That includes a client that
+        # only declared shallow commits of its own: a have promises the
+        # commit, not the history below the client's boundary.
+        if (
+            getattr(graph_walker, "shallow", set())
+            or unshallow
+            or getattr(graph_walker, "client_shallow", set())
+        ):
             # TODO: filter the haves commits from iter_shas. the specific
             # commits aren't missing.
             haves = []
